@@ -109,6 +109,16 @@ class EvalInterp(ArrInterp):
             return [1] if base else []
         return base
 
+    def arr_method(self, a, name, args, kwargs, node):
+        # the label sets of the inputs are known in this interpretation: value range of an array
+        if isinstance(a, AArr) and name in ("max", "min") and not args and not kwargs and a.content in ("labels", "bin") and not a.casts:
+            ls = self.labels_of(a)
+            if all(isinstance(x, int) and not isinstance(x, bool) for x in ls):
+                if name == "max":
+                    return max(ls) if ls else 0
+                return 0  # there is background in every input of the abstract run (labels are > 0)
+        return super().arr_method(a, name, args, kwargs, node)
+
     def binop_hook(self, op, l, r, node):
         if isinstance(l, Sym) and isinstance(r, Sym) and l.name.startswith("T") and r.name.startswith("T"):
             return Sym(f"({l.name}-{r.name})")
